@@ -182,4 +182,6 @@ def equivalent(e, spec, envs, tol=0.0):
                 return (False, (env, got, want), n, None)
         elif got != want:
             return (False, (env, got, want), n, None)
+    if n == 0:
+        return (None, None, 0, "no evaluation points")
     return (True, None, n, None)
